@@ -32,10 +32,6 @@ RefinesCarries == Built => Carries(adds, Og, Pages, PageIds(np))
 RefinesToc     == \A i \in 1..Len(tocs) : TocIs(tocs[i], ReadBackWith(adds, Pages))
 Verdict        == pc = "done" => Judge(adds, np, PageIds(np), adjusted, Og, tocs) = "ok"
 
-\* witnesses (checked to be *violated* by the thorough run): deep and wide forests are reached
-WitnessDeep == ~(pc = "done" /\ \E k \in 1..Len(adds) : Level(adds)[k] >= 3)
-WitnessLateChild == ~(pc = "done" /\ \E j, k \in 1..Len(adds) : j < k /\ adds[k].parent # 0 /\ adds[k].parent < adds[j].parent)
-
 EmitInv ==
     (Emit /\ pc = "done") =>
         PrintT(<<"REPLAY", ToJson([np |-> np, adds |-> adds, adjust |-> adjusted,
